@@ -9,7 +9,7 @@ from ..spec import Clock, build
 from ..canon import Snap
 
 PROPERTY = 'C13'
-CASES = {'quick': 144, 'thorough': 2000}
+CASES = {'quick': 432, 'thorough': 3456}
 BUDGET_S = {'quick': 240, 'thorough': 2400}
 RULE = ('case = a portfolio with one subject asset of a class accepting the option - SimpleContract, Contract (with take), Transport, '
         'ExtendedTransport, Storage, MultiCommodityContract (Plant/CHP for periodicity) - in its one-variable and two-variable forms (spread, costs, '
@@ -23,8 +23,8 @@ ASSUMPTIONS = ['coarse assets use wacc = 0 and no holding cost (EAO discounts / 
                'periodic assets use constant capacities (EAO averages bounds over merged steps) and grids with equal steps (EAO rejects unequal periods)',
                'period positions and durations are counted from the grid start; Timedelta-like period strings only',
                'value tolerance 1e-5 relative']
-MIN_NONVACUOUS = {'quick': {'coarse.constant_rate': 25, 'coarse.value_equals_fine_plus_equalities': 25, 'periodic.repeats': 20,
-                            'periodic.value_equals_fine_plus_equalities': 20, 'option.setup_works': 100},
+MIN_NONVACUOUS = {'quick': {'coarse.constant_rate': 62, 'coarse.value_equals_fine_plus_equalities': 62, 'periodic.repeats': 50,
+                            'periodic.value_equals_fine_plus_equalities': 50, 'option.setup_works': 250},
                   'thorough': {'coarse.constant_rate': 600, 'coarse.value_equals_fine_plus_equalities': 600, 'periodic.repeats': 450,
                                'periodic.value_equals_fine_plus_equalities': 450}}
 SUBJECTS = ['SimpleContract', 'Contract', 'Contract', 'Transport', 'ExtendedTransport', 'Storage', 'Storage', 'MultiCommodityContract']
